@@ -3,6 +3,7 @@ package main
 import (
 	"fmt"
 	"reflect"
+	"sort"
 	"strings"
 
 	"verif/mc/hcli"
@@ -186,6 +187,9 @@ func buildCall(gen string, r *schema.Resource, m *schema.Method, pos string, val
 		if pos == "patch-set" {
 			c.Patch.Set[f.Name] = val
 		}
+		if pos == "patch-shape" {
+			c.Patch = shapedPatch(r.Schema, val.S)
+		}
 		if m.ReturnEntity {
 			rep.Entity = replyEntity(r.Schema, "p")
 		}
@@ -239,12 +243,80 @@ func buildCall(gen string, r *schema.Resource, m *schema.Method, pos string, val
 			} else {
 				f := r.Schema.AllFields()[1]
 				kv.P = &Patch{T: r.Schema, Set: map[string]*schema.V{f.Name: schema.Base(f.Type)}}
+				if pos == "patch-shape" && i == 0 {
+					kv.P = shapedPatch(r.Schema, val.S)
+				}
 			}
 			c.Keyed = append(c.Keyed, kv)
 			rep.Batch = append(rep.Batch, &BatchEntry{K: k, Has: map[string]bool{"results": true}, Status: 204})
 		}
 	}
 	return c, rep
+}
+
+// canonicalQuery: the query of the request just sent lists its parameters in strictly ascending byte order of their
+// names, and the items of ids in ascending order of their encoded form.
+func canonicalQuery(w *World) (kind, detail string) {
+	l := w.transport.Last()
+	if l == nil || l.ServerReq == nil {
+		return "", "" // refused before sending: nothing to judge
+	}
+	raw := l.ServerReq.URL.RawQuery
+	if raw == "" {
+		return "", ""
+	}
+	var names []string
+	for _, part := range strings.Split(raw, "&") {
+		names = append(names, strings.SplitN(part, "=", 2)[0])
+	}
+	for i := 1; i < len(names); i++ {
+		if names[i-1] >= names[i] {
+			return "params-not-ascending", fmt.Sprintf("query %q: parameter %q comes before %q", raw, names[i-1], names[i])
+		}
+	}
+	if ids, err := idsOnWire(w); err == nil && !sort.StringsAreSorted(ids) {
+		return "ids-not-ascending", fmt.Sprintf("query %q: ids %q are not in ascending encoded order", raw, ids)
+	}
+	return "", ""
+}
+
+// patchShapes: patches that mix sections ($set with $delete, several of each), as alphabet of the patch-shape position.
+func patchShapes() []*schema.V {
+	var out []*schema.V
+	for _, n := range []string{"set", "delete", "set+delete", "delete+set-later-field", "two-sets+two-deletes"} {
+		out = append(out, schema.VS(schema.P(schema.String), n).D("patch:%s", n))
+	}
+	return out
+}
+
+func shapedPatch(t *schema.Type, shape string) *Patch {
+	p := &Patch{T: t, Set: map[string]*schema.V{}}
+	var req, opt []*schema.Field
+	for _, f := range t.AllFields() {
+		if f.Optional {
+			opt = append(opt, f)
+		} else {
+			req = append(req, f)
+		}
+	}
+	set := func(f *schema.Field) { p.Set[f.Name] = schema.Base(f.Type) }
+	switch shape {
+	case "set":
+		set(req[len(req)-1])
+	case "delete":
+		p.Delete = []string{opt[0].Name}
+	case "set+delete":
+		set(req[0])
+		p.Delete = []string{opt[len(opt)-1].Name}
+	case "delete+set-later-field":
+		p.Delete = []string{opt[0].Name}
+		set(opt[len(opt)-1])
+	case "two-sets+two-deletes":
+		set(req[0])
+		set(req[len(req)-1])
+		p.Delete = []string{opt[0].Name, opt[1].Name}
+	}
+	return p
 }
 
 // positions lists the deviating argument positions of (r, m) with their alphabets.
@@ -286,6 +358,7 @@ func positions(gen string, r *schema.Resource, m *schema.Method, full bool) []ar
 		ps = append(ps, argPos{"entity", schema.Alphabet(r.Schema, true)})
 	case m.Name == "partial_update":
 		ps = append(ps, argPos{"patch-set", schema.Alphabet(r.Schema.AllFields()[1].Type, true)})
+		ps = append(ps, argPos{"patch-shape", patchShapes()})
 	case m.Name == "batch_get" || m.Name == "batch_delete":
 		ps = append(ps, argPos{"batch-key", keyAlphabet(ownKey, true)})
 	case m.Name == "batch_create":
@@ -293,7 +366,7 @@ func positions(gen string, r *schema.Resource, m *schema.Method, full bool) []ar
 	case m.Name == "batch_update":
 		ps = append(ps, argPos{"batch-key", keyAlphabet(ownKey, true)}, argPos{"entity", schema.Alphabet(r.Schema, true)})
 	case m.Name == "batch_partial_update":
-		ps = append(ps, argPos{"batch-key", keyAlphabet(ownKey, true)})
+		ps = append(ps, argPos{"batch-key", keyAlphabet(ownKey, true)}, argPos{"patch-shape", patchShapes()})
 	}
 	return ps
 }
@@ -595,6 +668,8 @@ func c02Configs(part string) []Config {
 		bases = append(bases, c)
 	}
 	switch part {
+	case "C09W":
+		return []Config{DefaultConfig}
 	case "C14W":
 		c := DefaultConfig
 		c.Threshold = 40 // some queries of the sweep are longer, some shorter
@@ -606,7 +681,7 @@ func c02Configs(part string) []Config {
 }
 
 func partC02(a *hcli.Args, rep *report.Report, univName string, u *schema.Universe) {
-	s := rep.S(map[string]string{"C02": "end-to-end", "C14W": "end-to-end-tunnelled", "C15W": "end-to-end-bases"}[a.Part])
+	s := rep.S(map[string]string{"C02": "end-to-end", "C14W": "end-to-end-tunnelled", "C15W": "end-to-end-bases", "C09W": "request-queries-canonical"}[a.Part])
 	cfgs := c02Configs(a.Part)
 	s.Bounds = fmt.Sprintf("universe=%s resources=%d; every method x every argument position x its alphabet (one argument deviates at a time; full string alphabet on get keys, finder/action string parameters, created ids) under the default configuration, reduced alphabets (thorough: the full ones as well) under each of %d configuration deviations (tunnelling threshold, lenient, resolver base, mounting)", univName, len(u.Resources), len(cfgs)-1)
 	if a.Part != "C02" {
@@ -647,6 +722,10 @@ func partC02(a *hcli.Args, rep *report.Report, univName string, u *schema.Univer
 						call, reply := buildCall(a.Gen, r, m, p.name, val)
 						outs, pan := w.Do(call, reply)
 						kind, detail := w.verify(a.Gen, call, reply, outs, pan)
+						if a.Part == "C09W" {
+							// canonical form of the request: parameter names strictly ascending, ids ascending
+							kind, detail = canonicalQuery(w)
+						}
 						s.Evaluations++
 						s.Transitions++
 						s.Traces++
